@@ -59,7 +59,7 @@ def _channel_factor(repo, col):
         raise AnalysisError("_channel_currents: accumulation of voltage_terms/constant_terms not found")
 
 
-def _capacitance(repo, col):
+def _capacitance(repo, col, R="R-C15-units"):
     fi = repo.method("Module", "step")
     ex = Expander(repo, fi)
     d = None
@@ -71,4 +71,4 @@ def _capacitance(repo, col):
     from . import c01_solver, idx
     ex = idx.expander(repo, fi)
     kw = {k.value: ex.term(v) for k, v in zip(d.keys, d.values) if isinstance(k, ast.Constant)}
-    c01_solver.current_terms(repo, col, "R-C15-units", fi, ex, kw, d)
+    c01_solver.current_terms(repo, col, R, fi, ex, kw, d)
